@@ -152,8 +152,10 @@ impl DBM {
     { unimplemented!() }
 //@ transcribes teos/src/dbm.rs :: impl DBM :: fn get_appointments_count :: sha=973685ac8f1f7300
     #[verifier::external_body]
+    // SELECT COUNT(*) FROM appointments LEFT JOIN trackers .. WHERE t.UUID IS NULL: the appointments still being watched
+    // (corrected after the bounded validation of these stubs against the real DBM showed the first transcription wrong)
     pub fn get_appointments_count(&self) -> (r: usize)
-        ensures r == self.appts.len(),
+        ensures r == self.appts.dom().difference(self.trackers.dom()).len(),
     { unimplemented!() }
     // SELECT UUID FROM appointments WHERE locator
 //@ transcribes teos/src/dbm.rs :: impl DBM :: fn load_uuids :: sha=bb5cdbf9e0163186
